@@ -24,6 +24,7 @@ type reqSpec struct {
 	code, revealCode, deltaHashCode, updCCode, recCCode uint64
 	updCSameAsRecC, updCIsCurrentKey, recCIsCurrentKey  bool
 	hdr                                                 M
+	hdrRaw                                              string // protected header text as written (signature not renewed; the parser does not verify it)
 	nonceLen                                            int // 0 = none
 	patches                                             A
 	omitDelta, emptyPatches                             bool
@@ -171,6 +172,11 @@ func buildReq(sp reqSpec, r *rand.Rand, algs []uint) builtReq {
 		out.suffix = sp.didSuffix
 		delete(out.hashes, "updateCommitment")
 		delete(out.hashes, "deltaHash")
+	}
+	if sd, ok := req["signedData"].(string); ok && sp.hdrRaw != "" {
+		if parts := strings.SplitN(sd, ".", 2); len(parts) == 2 {
+			req["signedData"] = b64([]byte(sp.hdrRaw)) + "." + parts[1]
+		}
 	}
 	for k, v := range sp.extra {
 		req[k] = v
@@ -375,13 +381,27 @@ func genParseCases(r *rand.Rand) []parseCase {
 				{"header-alg-empty", func(a string) M { return M{"alg": ""} }, false},
 				{"header-alg-not-string", func(a string) M { return M{"alg": 5.0} }, false},
 				{"header-alg-none", func(a string) M { return M{"alg": "none"} }, false},
+				{"header-alg-twice-last-allowed", nil, false},
+				{"header-alg-twice-same", nil, false},
+				{"header-kid-twice", nil, false},
+				{"header-null-member", nil, false},
 			} {
 				sp := defaultSpec(typ, r)
 				_, _, _, alg := curveOf(sp.kind)
 				if sp.kind == "Ed25519" {
 					alg = "EdDSA"
 				}
-				sp.hdr = v.hdr(alg)
+				if v.hdr != nil {
+					sp.hdr = v.hdr(alg)
+				} else { // header texts no JSON object printer produces: a repeated member, a null member
+					q := string(jcs(alg))
+					sp.hdrRaw = map[string]string{
+						"header-alg-twice-last-allowed": `{"alg":"none","alg":` + q + `}`,
+						"header-alg-twice-same":         `{"alg":` + q + `,"alg":` + q + `}`,
+						"header-kid-twice":              `{"alg":` + q + `,"kid":"a","kid":"b"}`,
+						"header-null-member":            `{"alg":` + q + `,"typ":null}`,
+					}[v.l]
+				}
 				add(v.l, cloneCfg(base), buildReq(sp, r, base.MultihashAlgorithms), typ, v.expect)
 			}
 			sp := defaultSpec(typ, r)
@@ -661,7 +681,8 @@ func genC03(seed int64, tier string) []caseOut {
 		case 0:
 			sp.origin = "origin.example"
 		case 1:
-			sp.origin = M{"sys": "ledger", "n": 7.0}
+			// member names whose UTF-16 order (astral before U+E000) differs from their code-point order
+			sp.origin = M{"sys": "ledger", "n": 7.0, "\U00010000a": "astral", "\uE000b": "private use", "\uFFFDc": 1.0, "\U0010FFFFd": 2.0}
 		case 2:
 			sp.origin = 12345.0
 		case 3: // spellings a "normalising" parser would fold together: the suffix must still cover the submitted bytes
